@@ -224,6 +224,17 @@ func init() {
 	core.Register("C07.perm.effective", func(a []string) string { return a[len(a)-1] })
 }
 
+// quickMode: the modes whose three octal digits are 0, 7, 6 or `mid` (64 of the 512)
+func quickMode(m int, mid int) bool {
+	for i := 0; i < 3; i++ {
+		d := (m >> (3 * i)) & 7
+		if d != 0 && d != 7 && d != 6 && d != mid {
+			return false
+		}
+	}
+	return true
+}
+
 var permUmasks = []os.FileMode{0o022, 0o000, 0o027, 0o077}
 
 func runPerms(r *core.Run) {
@@ -262,7 +273,7 @@ func runPerms(r *core.Run) {
 	// 2. an existing directory with other permissions: every one of the 512 modes
 	for _, kind := range []string{"v1", "v2create", "v2open"} {
 		for m := 0; m < 512; m++ {
-			if !r.Thorough() && kind != "v1" && m%8 != 0 && m%8 != 5 && m != 0o701 && m != 0o777 && !rd.Chance(20) {
+			if !r.Thorough() && !quickMode(m, 0o5) && m != 0o701 && m != 0o710 && !rd.Chance(4) {
 				continue
 			}
 			r.Begin(fmt.Sprintf("permopen:%s:%o", kind, m), m != 0o700, "stream:perm-open", "kind:"+kind)
@@ -278,7 +289,7 @@ func runPerms(r *core.Run) {
 	}
 	// 3. loadPrivateKey's check on the key file (numeric comparison – modelled as it is)
 	for m := 0; m < 512; m++ {
-		if !r.Thorough() && m%8 != 0 && m%8 != 4 && !rd.Chance(25) {
+		if !r.Thorough() && !quickMode(m, 0o4) && m != 0o601 && m != 0o577 && !rd.Chance(4) {
 			continue
 		}
 		r.Begin(fmt.Sprintf("permload:%o", m), m != 0o600, "stream:perm-load")
